@@ -459,6 +459,9 @@ pub fn run(args: &Args) -> i32 {
     Prop::C08 => {
       cfg.bu_pre = true; cfg.bu_twice = true; cfg.bu_split = true; cfg.bu_then = true;
       groups.push(Group { enums: vec![rs(3, 1, 4)], depth: 4, shapes: false, gen_consumer_only: false, crashes: 0, inject: false, max_roots: Some(1), faulty: false, slice: None, families: false, staged: None, direct: false, two_writers: false });
+      // failing checkers: a task re-executed because a checker erred must record its new dependencies like any other
+      cfg.set_fail = true;
+      groups.push(Group { enums: vec![s(2, 2, if quick { 2 } else { 3 })], depth: if quick { 5 } else { 6 }, shapes: false, gen_consumer_only: false, crashes: 0, inject: false, max_roots: Some(1), faulty: true, slice: Some(Slice::Wf), families: false, staged: None, direct: false, two_writers: false });
       // plus programs that declare several dependencies with different checkers on one target (recorded finding F2)
       slice = Slice::WfOrMulti;
       let mut e = EnumCfg::structural(if quick { 1 } else { 2 }, 1, if quick { 2 } else { 3 });
